@@ -37,7 +37,8 @@ fn capture_take() -> String { unsafe { let _ = rs::io::stdout().flush(); let n =
 // ---- scenarios -------------------------------------------------------------------------------------------------------
 #[derive(Clone, Debug)]
 struct Scenario { name: &'static str, workers: usize, bound: usize, script: &'static str, extra: &'static [&'static str], max_schedules: usize, expect_two_outcomes: bool }
-// script letters: n = an answer whose account does NOT have the prefix, M = one that has; after the last letter the source fails
+// script letters: n = an answer whose account does NOT have the prefix, M = one that has, F = this one request fails;
+// after the last letter the source fails for good
 fn scenarios(thorough: bool) -> Vec<Scenario> {
     let mut v = vec![
         Scenario { name: "A-one-match-2w-b2", workers: 2, bound: 2, script: "nnMnnn", extra: &[], max_schedules: 60_000, expect_two_outcomes: true },
@@ -48,9 +49,12 @@ fn scenarios(thorough: bool) -> Vec<Scenario> {
         Scenario { name: "E-initial-phrase-matches-2w-b3", workers: 2, bound: 3, script: "Mn", extra: &[], max_schedules: 60_000, expect_two_outcomes: false },
         Scenario { name: "F-bad-account-selector-2w-b3", workers: 2, bound: 3, script: "nMn", extra: &["--vanity-hd-path", "m/x"], max_schedules: 60_000, expect_two_outcomes: false },
         Scenario { name: "G-one-worker-b3", workers: 1, bound: 3, script: "nnMn", extra: &[], max_schedules: 60_000, expect_two_outcomes: false },
+        Scenario { name: "I-one-shot-failure-2w-b2", workers: 2, bound: 2, script: "nFnnMn", extra: &[], max_schedules: 60_000, expect_two_outcomes: true },
         Scenario { name: "H-selector-password-2w-b2", workers: 2, bound: 2, script: "nMnn", extra: &["--vanity-password", "TREZOR", "--vanity-account-index", "3"], max_schedules: 60_000, expect_two_outcomes: true },
     ];
     if thorough {
+        v.push(Scenario { name: "I-one-shot-failure-2w-b3", workers: 2, bound: 3, script: "nFnnMn", extra: &[], max_schedules: 400_000, expect_two_outcomes: true });
+        v.push(Scenario { name: "I-one-shot-failure-3w-b2", workers: 3, bound: 2, script: "nnFnMnn", extra: &[], max_schedules: 400_000, expect_two_outcomes: true });
         v.push(Scenario { name: "A-one-match-2w-b3", workers: 2, bound: 3, script: "nnMnnn", extra: &[], max_schedules: 400_000, expect_two_outcomes: true });
         v.push(Scenario { name: "B-two-matches-2w-b3", workers: 2, bound: 3, script: "nnMnMnn", extra: &[], max_schedules: 400_000, expect_two_outcomes: true });
         v.push(Scenario { name: "A-one-match-3w-b2", workers: 3, bound: 2, script: "nnMnnn", extra: &[], max_schedules: 400_000, expect_two_outcomes: true });
@@ -73,7 +77,7 @@ fn plan(sc: &Scenario) -> Plan {
         if address_has_prefix(&eth::address_of_secret(&curve, &key), &[5]) { hits.push(e) } else { misses.push(e) }
     }
     let (mut hi, mut mi) = (0, 0); let mut script = Vec::new(); let mut good = Vec::new(); let mut all = Vec::new();
-    for ch in sc.script.chars() { let e = if ch == 'M' { hi += 1; good.push(bip39::entropy_to_phrase(&hits[hi - 1])); hits[hi - 1].clone() } else { mi += 1; misses[mi - 1].clone() }; all.push(bip39::entropy_to_phrase(&e)); script.push(Some(e)); }
+    for ch in sc.script.chars() { if ch == 'F' { all.push("<failure>".into()); script.push(None); continue; } let e = if ch == 'M' { hi += 1; good.push(bip39::entropy_to_phrase(&hits[hi - 1])); hits[hi - 1].clone() } else { mi += 1; misses[mi - 1].clone() }; all.push(bip39::entropy_to_phrase(&e)); script.push(Some(e)); }
     Plan { script, good, all }
 }
 fn options(sc: &Scenario) -> cmd::new::Options {
@@ -92,20 +96,30 @@ fn explore(sc: &Scenario, result_path: &str, checkpoint: &str, replay: bool) {
     let (o2, v2, p2) = (outcomes.clone(), violation.clone(), pl.clone());
     let mut b = loom::model::Builder::new();
     b.preemption_bound = Some(sc.bound); b.max_threads = sc.workers + 1; b.max_branches = 100_000; b.checkpoint_file = Some(checkpoint.into()); b.checkpoint_interval = 1;
-    b.max_permutations = Some(if replay { 1 } else { sc.max_schedules });
+    b.max_permutations = Some(if replay { 2 } else { sc.max_schedules }); // the cap is tested before an execution starts: 2 = exactly one execution
     if !replay { let _ = rs::fs::remove_file(checkpoint); }
     let start = rs::time::Instant::now();
     let res = rs::panic::catch_unwind(rs::panic::AssertUnwindSafe(|| b.check(move || {
         SCHEDULES.fetch_add(1, Ordering::Relaxed);
         COUNTER.with(|c| *c.borrow_mut() = Some(rs::sync::Arc::new(loom::sync::atomic::AtomicUsize::new(0))));
         SCRIPT.with(|s| *s.borrow_mut() = p2.script.clone());
+        std::sync::mpsc::SEND_LOG.with(|l| l.borrow_mut().clear());
+        std::sync::mpsc::SEND_HOOK.with(|h| h.set(Some(|m: &dyn rs::any::Any| m.downcast_ref::<anyhow::Result<hdwallet::mnemonic::Mnemonic>>().map(|r| match r { Ok(m) => format!("ok:{m}"), Err(_) => "err".to_string() }))));
         let r = cmd::new::run(options(&sc2));
         let out = capture_take();
+        // "whichever worker finishes first": the first message put on the channel decides the outcome
+        let first = std::sync::mpsc::SEND_LOG.with(|l| l.borrow().first().cloned());
         let outcome = match (&r, out.as_str()) {
             (Err(_), "") => "error, nothing printed".to_string(),
             (Ok(()), o) if o.ends_with('\n') && !o[..o.len() - 1].contains('\n') => { let ph = &o[..o.len() - 1]; match p2.all.iter().position(|x| x == ph) { Some(k) if p2.good.iter().any(|g| g == ph) => format!("printed the matching phrase of answer #{k}"), Some(k) => format!("VIOLATION printed the phrase of answer #{k} whose account does not have the prefix"), None => format!("VIOLATION printed a phrase that is not one of the scripted answers: {ph}") } }
             (Ok(()), o) => format!("VIOLATION ok with stdout {:?}", o), (Err(e), o) => format!("VIOLATION error ({e}) but stdout {:?}", o),
         };
+        let outcome = if outcome.starts_with("VIOLATION") { outcome } else { match (&first, &r) {
+            (Some(f), Ok(())) if f.starts_with("ok:") && format!("{}\n", &f[3..]) == out => outcome,
+            (Some(f), Err(_)) if f == "err" => outcome,
+            (None, _) => outcome, // nothing was sent: the search ended before any worker finished (failure in the main thread)
+            (Some(f), _) => format!("VIOLATION the first worker to finish sent {:?} but the command {}", if f == "err" { "an error".to_string() } else { format!("the phrase '{}'", &f[3..]) }, if r.is_ok() { format!("printed {:?}", out) } else { "failed".to_string() }),
+        } };
         *o2.lock().unwrap().entry(outcome.clone()).or_insert(0) += 1;
         if outcome.starts_with("VIOLATION") { *v2.lock().unwrap() = Some(outcome.clone()); panic!("{outcome}"); }
     })));
@@ -131,9 +145,11 @@ fn main() {
     let tier = args.iter().position(|a| a == "--tier").map(|i| args[i + 1].clone()).or_else(|| rs::env::var("VERIF_TIER").ok()).unwrap_or_else(|| "quick".into());
     let only: Option<String> = args.iter().position(|a| a == "--only").map(|i| args[i + 1].rsplit_once(':').map(|x| x.0.to_string()).unwrap_or_default());
     let scratch = rs::env::var("VERIF_SCRATCH").unwrap_or_else(|_| "/verif/target/scratch".into()); let _ = rs::fs::create_dir_all(&scratch);
-    let ckdir = "/verif/replays/C18"; let _ = rs::fs::create_dir_all(ckdir);
+    let ckdir_s = format!("/verif/replays/{}", args.first().cloned().filter(|a| a.starts_with('C')).unwrap_or_else(|| "C18".into())); let ckdir: &'static str = Box::leak(ckdir_s.into_boxed_str()); let _ = rs::fs::create_dir_all(ckdir);
     let exe = rs::env::current_exe().unwrap(); let start = rs::time::Instant::now();
-    let scs: Vec<Scenario> = scenarios(tier == "thorough").into_iter().filter(|s| only.as_ref().map_or(true, |o| o == s.name)).collect();
+    let pid = args.first().cloned().filter(|a| a.starts_with('C')).unwrap_or_else(|| "C18".into());
+    // C12 (entropy failure is an error) uses the scenarios with an injected failure; C18 uses all of them
+    let scs: Vec<Scenario> = scenarios(tier == "thorough").into_iter().filter(|s| only.as_ref().map_or(true, |o| o == s.name)).filter(|s| pid != "C12" || s.name.starts_with("C-") || s.name.starts_with("I-") || s.name.starts_with("A-one-match-2w")).collect();
     let handles: Vec<_> = scs.iter().map(|sc| { let (exe, scratch, tier, sc, replay) = (exe.clone(), scratch.clone(), tier.clone(), sc.clone(), only.is_some());
         rs::thread::spawn(move || {
             let res = format!("{scratch}/loom-{}.json", sc.name); let _ = rs::fs::remove_file(&res);
@@ -151,7 +167,7 @@ fn main() {
         match text.and_then(|t| serde_json::from_str::<serde_json::Value>(&t).ok()) {
             None => { // the child died without a result: loom aborts the process on some failures (double panic while unwinding)
                 let tail: String = stderr.lines().rev().take(12).collect::<Vec<_>>().into_iter().rev().collect::<Vec<_>>().join(" | ");
-                viols.push(serde_json::json!({"sig": format!("C18:schedules:{}:aborted", sc.name), "what": format!("schedule exploration of the real vanity search died (status {code:?}): {tail}"), "replay": {"sweep": sc.name, "index": 0, "kind": "loom", "checkpoint": format!("{ckdir}/loom-{}.ckpt", sc.name)}})); }
+                viols.push(serde_json::json!({"sig": format!("{pid}:schedules:{}:aborted", sc.name), "what": format!("schedule exploration of the real vanity search died (status {code:?}): {tail}"), "replay": {"sweep": sc.name, "index": 0, "kind": "loom", "checkpoint": format!("{ckdir}/loom-{}.ckpt", sc.name)}})); }
             Some(v) => {
                 let n = v["schedules"].as_u64().unwrap_or(0); states += n; evals += n;
                 let oc = v["outcomes"].as_object().cloned().unwrap_or_default();
@@ -159,13 +175,13 @@ fn main() {
                 sweeps.push(serde_json::json!({"name": sc.name, "cases": n, "bound": format!("loom DPOR, {} workers + main, preemption bound {}, entropy script '{}' then failure{}; {} schedules", sc.workers, sc.bound, sc.script, if sc.extra.is_empty() { String::new() } else { format!(", extra args {:?}", sc.extra) }, n), "exhaustive": !v["capped"].as_bool().unwrap_or(false), "cap": if v["capped"].as_bool().unwrap_or(false) { serde_json::json!(format!("stopped at {} schedules", n)) } else { serde_json::Value::Null }}));
                 samples.push(serde_json::json!({"sweep": sc.name, "case": {"workers": sc.workers, "preemption_bound": sc.bound, "script": sc.script, "schedules": n, "outcome_histogram": oc, "wall_s": v["wall_s"]}}));
                 if sc.expect_two_outcomes && only.is_none() { guards.push(serde_json::json!({"name": format!("{}: schedules lead to different winners", sc.name), "ok": oc.len() >= 2, "detail": format!("{} distinct outcomes", oc.len())})); if oc.len() < 2 && v["violation"].is_null() { errors.push(format!("vacuity guard failed: {} produced a single outcome over {} schedules", sc.name, n)); } }
-                if let Some(what) = v["violation"].as_str() { let kind = if what.contains("deadlock") { "deadlock" } else if what.contains("does not have the prefix") { "wrong-phrase" } else if what.contains("not one of the scripted") { "foreign-phrase" } else if what.contains("stopped") { "panic" } else { "wrong-output" };
-                    viols.push(serde_json::json!({"sig": format!("C18:schedules:{kind}"), "what": format!("scenario {} (workers {}, preemption bound {}, script {}), after {} schedules: {}", sc.name, sc.workers, sc.bound, sc.script, n, what), "replay": {"sweep": sc.name, "index": 0, "kind": "loom", "checkpoint": format!("{ckdir}/loom-{}.ckpt", sc.name)}})); }
+                if let Some(what) = v["violation"].as_str() { let kind = if what.contains("deadlock") { "deadlock" } else if what.contains("does not have the prefix") { "wrong-phrase" } else if what.contains("not one of the scripted") { "foreign-phrase" } else if what.contains("first worker to finish") { "not-first-finisher" } else if what.contains("stopped") { "panic" } else { "wrong-output" };
+                    viols.push(serde_json::json!({"sig": format!("{pid}:schedules:{kind}"), "what": format!("scenario {} (workers {}, preemption bound {}, script {}), after {} schedules: {}", sc.name, sc.workers, sc.bound, sc.script, n, what), "replay": {"sweep": sc.name, "index": 0, "kind": "loom", "checkpoint": format!("{ckdir}/loom-{}.ckpt", sc.name)}})); }
             }
         }
     }
     let nv = viols.len();
-    let part = serde_json::json!({"property": "C18", "layer": "loom", "tier": tier, "seed": 0, "threads": scs.len(), "wall_s": start.elapsed().as_secs_f64(), "sweeps": sweeps, "evaluations": evals, "states": states, "transitions": states, "traces": states,
+    let part = serde_json::json!({"property": pid, "layer": "loom", "tier": tier, "seed": 0, "threads": scs.len(), "wall_s": start.elapsed().as_secs_f64(), "sweeps": sweeps, "evaluations": evals, "states": states, "transitions": states, "traces": states,
         "classes": classes, "samples": samples, "violations": viols, "violations_total": nv, "guards": guards, "engine_errors": errors, "notes": ["states/transitions for the loom layer = complete schedules (executions) explored; every schedule runs the real cmd::new::run to completion"], "extra": {}, "replay_only": only});
     match rs::env::var("VERIF_PART") { Ok(p) => rs::fs::write(p, part.to_string()).unwrap(), Err(_) => { let mut e = rs::io::stderr(); let _ = writeln!(e, "{}", part); } }
     rs::process::exit(if !errors.is_empty() { 2 } else if nv > 0 { 1 } else { 0 });
